@@ -412,9 +412,10 @@ Definition log_files (v : variant) (prefix : bytes) (fs : list file) : list file
 Definition total_size (v : variant) (prefix : bytes) (fs : list file) : N :=
   sumN (map f_size (log_files v prefix fs)).
 
-(* per-file size rule: at most max_write_bytes, or a single (oversized) line *)
+(* per-file size rule of the property text: a file exceeds max_write_bytes by at most one event,
+   i.e. everything before its last line fits *)
 Definition file_size_ok (mw : N) (lines : list line) : bool :=
-  (sumN (map l_size lines) <=? mw) || (length lines <=? 1)%nat.
+  sumN (map l_size (removelast lines)) <=? mw.
 
 (* The writer oracle = boolean form of the conclusions of every_event_once_in_order,
    file_bounds, total_bound (with max_keep >= max_write) for one observed directory state:
@@ -424,13 +425,12 @@ Definition file_size_ok (mw : N) (lines : list line) : bool :=
      [mw mk]     max_write_bytes, max_keep_bytes of the running writer. *)
 Definition start_id : N := 1000000000.
 Definition is_start (l : line) : bool := l_id l =? start_id.
-(* the bound of total_bound: right after a start the closed files fit max_keep and the start
-   line is written unconditionally; after an event everything fits max(max_keep, max_write),
-   or the directory holds nothing but that one event *)
+(* the bound of the property text: the keep size (the write size if that is larger) plus the
+   last line written *)
 Definition keep_bound (mw mk : N) (accepted : list line) : N :=
   match rev accepted with
-  | [] => mk
-  | x :: _ => if is_start x then mk + l_size x else N.max (N.max mk mw) (l_size x)
+  | [] => N.max mk mw
+  | x :: _ => N.max mk mw + l_size x
   end.
 Definition ow_suffix (accepted : list line) (obs : list (list line)) : bool :=
   is_suffix line_eqb (concat obs) accepted.
